@@ -76,12 +76,12 @@ POLICIES = ['random', 'random', 'starve_jobs', 'jobs_first', 'starve_ptq', 'resu
 
 
 def run_program(prog, scheduler='default', policy='random', seed=0, ops=None, dups=0, max_steps=400, evict=False,
-                declared=None, c20=None):
+                declared=None, c20=None, ids='rand'):
     """ops: list of (at_step, op tuple factory) operator commands; dups: number of messages to re-deliver."""
     rnd = random.Random(seed)
-    w = world_mod.World(scheduler=scheduler, seed=seed)
+    w = world_mod.World(scheduler=scheduler, seed=seed, ids=ids)
     steps = []
-    meta = dict(scheduler=scheduler, policy=policy, seed=seed, dups=dups, evict=evict,
+    meta = dict(scheduler=scheduler, policy=policy, seed=seed, dups=dups, evict=evict, ids=ids,
                 mayPause=bool(ops) or bool(prog.flags.get('pause')), faulty=dups > 0)
     try:
         w.oracle = dict(prog.oracle)
